@@ -310,7 +310,7 @@ func (c *Cluster) serve(cn *Conn, sv *pipeEnd) {
 		q := &Req{conn: cn, pkt: r, epoch: c.w.epoch, arr: c.arr}
 		q.id = fmt.Sprintf("%s|%s|vb%d|%s|%s", cn.id, r.Command.Name(), r.Vbucket, printable(r.Key), reqDetail(&r))
 		cn.queue = append(cn.queue, q)
-		c.w.jl(&journal.Ev{K: journal.KReq, M: cn.member, Vb: int(r.Vbucket), Key: r.Key, S: r.Command.Name(), ID: q.id, S2: cn.role})
+		c.w.jl(&journal.Ev{K: journal.KReq, M: cn.member, Vb: int(r.Vbucket), Key: r.Key, S: r.Command.Name(), ID: q.id, S2: cn.role, I: int64(q.arr)})
 		c.w.mu.Unlock()
 		c.w.poke()
 	}
@@ -402,7 +402,7 @@ func (c *Cluster) respond(q *Req, v replyVariant) {
 	req := &q.pkt
 	res := &memd.Packet{Magic: memd.CmdMagicRes, Command: req.Command, Opaque: req.Opaque, Status: memd.StatusSuccess}
 	w := c.w
-	ev := &journal.Ev{K: journal.KRsp, M: cn.member, Vb: int(req.Vbucket), S: req.Command.Name(), ID: q.id, Key: req.Key}
+	ev := &journal.Ev{K: journal.KRsp, M: cn.member, Vb: int(req.Vbucket), S: req.Command.Name(), ID: q.id, Key: req.Key, I: int64(q.arr)}
 	if v.status != 0 {
 		res.Status = v.status
 		if v.status == memd.StatusRollback {
